@@ -1226,7 +1226,9 @@ func (h *NtfnsHandler) OnRemoveWallet(walletId string) error {
 		if err != nil {
 			return err
 		}
-		if !ws.Ready() {
+		// a wallet already marked is being removed by a queued task: a second
+		// task would outlive it and wipe a wallet restored under the same id
+		if !ws.Ready() || ws.IsRemoved() {
 			return ErrWalletUnready
 		}
 		return h.walletMgr.syncStore.MarkDeleteWallet(wtx, walletId)
